@@ -93,11 +93,14 @@ def vacuum_event(c):
     from abtem.multislice import RealSpaceMultislice
     n, d = VA_GRIDS[c["grid"]], VA_SPACINGS[c["spacing"]]
     ext = (n[0] * d[0], n[1] * d[1])
-    ev = {"k": "vacuum", "case": c, "raised": False, "intensity_ppb": 0, "lazy_ppb": 0}
+    ev = {"k": "vacuum", "case": c, "raised": False, "intensity_ppb": 0, "lazy_ppb": 0, "repeat_ppb": 0}
     with warnings.catch_warnings():
         warnings.simplefilter("ignore")
         try:
-            vac = abtem.PotentialArray(np.zeros((3,) + n, dtype=np.float32), slice_thickness=[1.0, 2.0, 1.5], sampling=d)
+            parr = np.zeros((3,) + n, dtype=np.float32)
+            if c.get("pot") == "array":
+                parr = (25.0 * np.random.default_rng(3).random((3,) + n)).astype(np.float32)         # a prebuilt, non-zero potential
+            vac = abtem.PotentialArray(parr, slice_thickness=[1.0, 2.0, 1.5], sampling=d)
             alg = RealSpaceMultislice(order=c["order"], expansion_scope=c["scope"], derivative_accuracy=c["acc"])
             probe = abtem.Probe(energy=ENERGY, semiangle_cutoff=20, extent=ext, gpts=n, defocus=20.0)     # band-limited well inside the grid
             scan = abtem.CustomScan(np.array([[ext[0] * 0.4, ext[1] * 0.55], [ext[0] * 0.1, ext[1] * 0.8]]))
@@ -107,7 +110,9 @@ def vacuum_event(c):
                 after = np.asarray(probe.multislice(vac, scan=scan, lazy=False, algorithm=alg).array)
                 i0 = (np.abs(before) ** 2).sum((-2, -1))
                 i1 = (np.abs(after) ** 2).sum((-2, -1))
-                ev["intensity_ppb"] = ppb(float(np.abs(i1 / i0 - 1.0).max()))
+                ev["intensity_ppb"] = ppb(float(np.abs(i1 / i0 - 1.0).max())) if c.get("pot", "vacuum") == "vacuum" else 0
+                again = np.asarray(probe.multislice(vac, scan=scan, lazy=False, algorithm=alg).array)
+                ev["repeat_ppb"] = ppb(relerr(again, after))
                 if c["lazy"]:
                     lz = np.asarray(probe.multislice(vac, scan=scan, lazy=True, algorithm=alg).compute().array)
                     ev["lazy_ppb"] = ppb(relerr(lz, after)) if lz.shape == after.shape else 2 * 10 ** 9
@@ -143,7 +148,7 @@ def self_test(ctx: Ctx):
     b1 = dict(g, op=[[0, 0, 0, 0, -40000], [1, 0, 1, 0, -40000], [0, 0, 1, 0, 40000], [1, 0, 0, 0, 40000]])      # prefactor 1/(dx dy) = 2 on both axes
     b2 = dict(g, op=g["op"][:3])                                                                              # a neighbour missing
     e = {"k": "eigen", "raised": False, "err_ppb": 900}
-    v = {"k": "vacuum", "raised": False, "intensity_ppb": 600, "lazy_ppb": 0}
+    v = {"k": "vacuum", "raised": False, "intensity_ppb": 600, "lazy_ppb": 0, "repeat_ppb": 0}
     res = ctx.validate("FdTrace", [[g], [e], [v], [b1], [b2], [dict(e, err_ppb=10 ** 8)], [dict(v, intensity_ppb=10 ** 6)], [dict(v, lazy_ppb=10 ** 6)],
                                    [dict(v, raised=True)]], "FdTrace.cfg")
     if not all(r[0] for r in res[:3]) or any(r[0] for r in res[3:]):
